@@ -126,3 +126,17 @@ HARN(h_wait, fiber_semaphore_wait, PRE_mode(IDLE), POST_wait(r), "wait is admitt
 HARN(h_trywait, fiber_semaphore_trywait, PRE_mode(IDLE), POST_trywait(r), "trywait never blocks and succeeds only by taking a unit")
 HARN(h_post_internal, fiber_semaphore_post_internal, PRE_mode(POSTING), POST_post_internal(r), "post delivers its unit exactly once")
 HARN(h_post, fiber_semaphore_post, PRE_mode(POSTING), POST_post(r), "post = post_internal (+ courtesy yield)")
+/* init: from ANY memory content the initialiser establishes the state every proof above starts from */
+static mpmc_fifo_node_t INITNODE; static int init_nodes_taken, init_nodes_returned;
+mpmc_fifo_node_t* fiber_manager_get_mpmc_node(void) { init_nodes_taken++; return &INITNODE; }   /* by contract: a fresh node nobody else holds */
+void fiber_manager_return_mpmc_node(mpmc_fifo_node_t* n) { init_nodes_returned++; }
+void h_init(void) {
+  static fiber_semaphore_t X; memset(&X, (int)verif_u64(), sizeof(X)); memset(&INITNODE, (int)verif_u64(), sizeof(INITNODE));
+  int v = (int)verif_u64(); init_nodes_taken = init_nodes_returned = 0;
+  int r = fiber_semaphore_init(&X, v);
+  if (r == FIBER_SUCCESS) VASSERT(X.counter == v && X.waiters.head == &INITNODE && X.waiters.tail == &INITNODE && INITNODE.prev == 0 && INITNODE.next == 0 && INITNODE.value == 0 &&
+                                  init_nodes_taken == 1 && init_nodes_returned == 0,
+                                  "H: C06 init: the counter is the requested value and the wait queue is empty (one dummy node, unlinked), whatever the memory held");
+  else VASSERT(r == FIBER_ERROR && init_nodes_returned == 1, "H: C06 a failed init gives its node back");
+  VCANARY("init can return");
+}
